@@ -401,8 +401,19 @@ def cell_area_signs(ctx):
     from ..dataflow import expanded_text
     areas_ret = [expanded_text(fh.node, r.value.elts[0]) for r in own_nodes(fh.node)
                  if isinstance(r, ast.Return) and isinstance(r.value, ast.Tuple) and r.value.elts]
-    ok = any(t.endswith(".volume") and t.startswith("ConvexHull(") for t in areas_ret) and \
-        all(t in ("0", "0.0") or (t.endswith(".volume") and t.startswith("ConvexHull(")) for t in areas_ret)
+    from ..dataflow import assignments as _asg
+
+    def hull_volume(r):
+        """`<h>.volume` where every definition of <h> other than `None` is `ConvexHull(...)` (a sentinel `h = None` before a guarded
+        construction is the same value on the path that returns it)"""
+        e = r.value.elts[0]
+        if isinstance(e, ast.Attribute) and e.attr == "volume" and isinstance(e.value, ast.Name):
+            defs = [v for _, v in _asg(fh.node).get(e.value.id, []) if v is not None and not (isinstance(v, ast.Constant) and v.value is None)]
+            return bool(defs) and all(isinstance(v, ast.Call) and norm(v.func).split(".")[-1] == "ConvexHull" for v in defs)
+        return False
+    rets = [r for r in own_nodes(fh.node) if isinstance(r, ast.Return) and isinstance(r.value, ast.Tuple) and r.value.elts]
+    is_hull = [(t.endswith(".volume") and t.startswith("ConvexHull(")) or hull_volume(r) for t, r in zip(areas_ret, rets)]
+    ok = any(is_hull) and all(h or t in ("0", "0.0") for h, t in zip(is_hull, areas_ret))
     ctx.ob("R07.4", "get_convex_polygon_area returns the (unsigned) convex-hull area", ok, where=fh.fq, construct="get_convex_polygon_area",
            message="get_convex_polygon_area no longer returns hull.volume", consequence="cell areas depend on vertex order")
 
